@@ -1,5 +1,7 @@
 """C17 — access-guarding file directives hold whatever the cache contains."""
 import ipaddress
+import json
+import os
 import re
 
 from kv import Case, xn, xb, xl, xlist, xbool, xparse, xtext
@@ -8,33 +10,17 @@ import pipe
 
 ID = "C17"
 MODULE = "C17"
-IMPORTS = "PathSan PresentLine Guards GuardsProofs"
+IMPORTS = "PathSan PresentLine CacheX Guards GuardsProofs"
 PROFILES = ("dev",)
 PER_SHARD = 12
 KERNEL_SAMPLE = 12
-THEOREMS = [
-    ("guarded_content_confined",
-     "forall (fs : bytes -> option bytes) (errpage : N -> bytes) (secret : bytes), "
-     "(forall t c, fs t = Some c -> contains_sub secret c = true -> guarded t c = true) -> "
-     "(forall s, contains_sub secret (errpage s) = false) -> "
-     "(forall s, PresentLine.present_parse (errpage s) = Ok None) -> "
-     "forall cache_on ims_on parse_ims prime refuses vary_tuple vary_header now ops, "
-     "Forall2 (reply_ok fs secret prime) ops (run_g true true fs errpage cache_on ims_on parse_ims prime refuses vary_tuple vary_header [] now ops)"),
-    ("reply_ok_meaning",
-     "forall fs secret prime r0 rp lg, reply_ok fs secret prime (OReq r0) (ObReply rp lg) -> let r := prime r0 in "
-     "contains_sub secret (rp_body rp) = true \\/ contains_sub secret (rp_identity rp) = true -> "
-     "exists t c, served_file (rq_path r) = Ok (Some t) /\\ fs t = Some c /\\ is_private t = false /\\ "
-     "has_name N_HIDE (entries_of c) = false /\\ has_name N_ALLOW (entries_of c) = true /\\ listed (rq_addr r) (entries_of c) = true"),
-    ("range_of_clean_body_clean", "forall secret lo hi body, contains_sub secret (slice lo hi body) = true -> contains_sub secret body = true"),
-    ("spelling_decodes", "forall mask d, Forall (fun c => c < 256) d -> mask_ok mask d = true -> "
-     "PathSan.percent_decode (pct_encode mask d) = d"),
-    ("ext_lookup_spelling_independent", None),
-    ("allow_ips_never_stored", None),
-    ("guarded_answer_is_404", None),
-    ("private_spelling_v0_refuted", None),
-    ("cache_directive_v0_refuted", None),
-    ("violates_contradicts_confined", "forall fs secret ops obs, violates fs secret ops obs -> ~ Forall2 (reply_ok fs secret (fun r => r)) ops obs"),
-]
+_PINS = json.load(open(os.path.join(os.path.dirname(os.path.abspath(__file__)), "pins", "C17.json")))
+# every statement is pinned (driver/props/pins/C17.json, written by tools/mkpins.py after a REVIEWED change): the audit
+# compiles `Check (name : pinned statement)` for each, so weakening Properties/C17.v is reported
+_NAMES = ("guarded_content_confined", "reply_ok_meaning", "range_of_clean_body_clean", "spelling_decodes",
+          "ext_lookup_spelling_independent", "allow_ips_never_stored", "guarded_answer_is_404",
+          "private_spelling_v0_refuted", "cache_directive_v0_refuted", "violates_contradicts_confined")
+THEOREMS = [(n, _PINS[n]) for n in _NAMES]
 RULE = ("histories of requests against the real kvarn::handle_cache in process (host = Extensions::empty() or, for a third of the scenarios, "
         "Extensions::new() [default Prime 'Expand . and /': /e/ -> /e/index.html, /r. -> /r.html], + kvarn_extensions::mount_all, "
         "fixture files written to a fresh directory, chosen client address per request) vs. the extracted Coq model (correspondence: status, "
